@@ -566,13 +566,19 @@ var engineHung bool
 const costBudget = 20000
 
 func (ee *engineEnv) costly(tu *ketoapi.RelationTuple, depth int) bool {
+	return ee.costlyN(tu, depth, costBudget)
+}
+
+// costlyN: the same probe with a smaller budget, for suites that repeat every request many times (TRANSPORT asks each one
+// through six transports) and are not about deep evaluation
+func (ee *engineEnv) costlyN(tu *ketoapi.RelationTuple, depth int, budget int) bool {
 	ctx, cancel := context.WithCancel(context.Background())
 	defer cancel()
 	its, err := ee.e.reg.ReadOnlyMapper().FromTuple(ctx, tu)
 	if err != nil {
 		return false
 	}
-	p := &storagePlan{cancelAt: costBudget, cancel: cancel}
+	p := &storagePlan{cancelAt: budget, cancel: cancel}
 	eng := ee.faultyEngine(p)
 	done := make(chan struct{})
 	go func() { eng.CheckRelationTuple(ctx, its[0], depth); close(done) }()
@@ -580,7 +586,7 @@ func (ee *engineEnv) costly(tu *ketoapi.RelationTuple, depth int) bool {
 	case <-done:
 	case <-time.After(20 * time.Second):
 	}
-	return p.count() >= costBudget
+	return p.count() >= budget
 }
 
 // check runs the real engine on one tuple; a check that has not returned after 20 s is reported as "hang" (and the
@@ -665,6 +671,23 @@ func suiteEngine(t *testing.T, cfg cfgT) {
 		ee.header(out)
 		ntup := 4 + hr.intn(22)
 		aTuples := egTuples(hr, nss, ntup, strict || hr.chance(1, 2))
+		if hr.chance(2, 3) {
+			// relationships stored directly ON a permission (the write API accepts them): outside strict mode they count like
+			// any relationship, in strict mode a permission is its expression only - wherever it is referenced
+			for k := 0; k < 3; k++ {
+				ns := nss[1+hr.intn(len(nss)-1)]
+				var perms []string
+				for _, rel := range ns.Relations {
+					if rel.SubjectSetRewrite != nil {
+						perms = append(perms, rel.Name)
+					}
+				}
+				if len(perms) > 0 {
+					u := hr.pick(egUsers)
+					aTuples = append(aTuples, &ketoapi.RelationTuple{Namespace: ns.Name, Object: hr.pick(egObjects), Relation: hr.pick(perms), SubjectID: &u})
+				}
+			}
+		}
 		ee.insert(t, aTuples)
 		var motifQs []*ketoapi.RelationTuple
 		if !strict && !binding && hr.chance(1, 2) {
@@ -817,6 +840,7 @@ func engineCorpus(t *testing.T, out *sink) int {
 		depth  int
 		gdepth int
 		width  int // 0 = 100
+		strict bool
 	}
 	doc := func(rels ...ast.Relation) []*namespace.Namespace {
 		return []*namespace.Namespace{{Name: "U"}, {Name: "Doc", Relations: rels}, {Name: "G", Relations: []ast.Relation{{Name: "m"}}}, {Name: "H", Relations: []ast.Relation{{Name: "m"}}}}
@@ -842,6 +866,30 @@ func engineCorpus(t *testing.T, out *sink) int {
 			tuples: []string{"Doc:z#x@bob"},
 			checks: []string{"Doc:z#p@bob"}, gdepth: 6,
 		},
+	}
+	// relationships stored directly ON a permission: they count outside strict mode; in strict mode a permission is its
+	// expression wherever it is referenced - alone, through this.permits, next to an includes() in a union (where the
+	// engine asks the database for all computed subject sets of the union in one query)
+	for _, strict := range []bool{false, true} {
+		uT := []ast.RelationType{{Namespace: "U"}}
+		scs = append(scs, sc{
+			nss: []*namespace.Namespace{{Name: "U"}, {Name: "Doc", Relations: []ast.Relation{
+				{Name: "viewers", Types: uT}, {Name: "editors", Types: uT},
+				{Name: "pedit", SubjectSetRewrite: or(css("editors"))},
+				{Name: "pvia", SubjectSetRewrite: or(css("pedit"))},
+				{Name: "pview", SubjectSetRewrite: or(css("viewers"), css("pedit"))},
+				{Name: "pboth", SubjectSetRewrite: and(css("viewers"), css("pedit"))},
+				{Name: "pnot", SubjectSetRewrite: and(css("viewers"), &ast.InvertResult{Child: css("pedit")})},
+				// D23 (known finding): whoever may edit x views y; in strict mode the relationship stored on pedit is ignored when
+				// pedit is asked, but the "found" shortcut of the subject-set traversal honours it
+				{Name: "sviewers", Types: []ast.RelationType{{Namespace: "U"}, {Namespace: "Doc", Relation: "pedit"}}}}}},
+			tuples: []string{"Doc:y#sviewers@Doc:x#pedit", "Doc:x#pedit@mallory", "Doc:x#pedit@dave", "Doc:x#editors@alice", "Doc:x#viewers@bob", "Doc:x#viewers@mallory", "Doc:x#pview@carol"},
+			checks: []string{"Doc:x#pedit@mallory", "Doc:x#pvia@mallory", "Doc:x#pview@mallory", "Doc:x#pboth@mallory", "Doc:x#pnot@mallory",
+				"Doc:x#pedit@dave", "Doc:x#pvia@dave", "Doc:x#pview@dave", "Doc:x#pboth@dave", "Doc:x#pnot@dave",
+				"Doc:y#sviewers@alice", "Doc:y#sviewers@dave", "Doc:y#sviewers@bob",
+				"Doc:x#pview@alice", "Doc:x#pview@bob", "Doc:x#pview@carol", "Doc:x#pedit@alice", "Doc:x#pboth@bob", "Doc:x#pnot@bob"},
+			gdepth: 50, strict: strict,
+		})
 	}
 	// visited-set hygiene (the D1 family): two operands of one rewrite that must BOTH walk the same subject set, the
 	// subject being a member of it only indirectly, for every operand kind (computed, traversal, nested union, negation)
@@ -955,7 +1003,7 @@ func engineCorpus(t *testing.T, out *sink) int {
 		if s.width == 0 {
 			s.width = 100
 		}
-		ee := newEngineEnv(t, s.nss, false, false, s.gdepth, s.width)
+		ee := newEngineEnv(t, s.nss, s.strict, s.strict, s.gdepth, s.width)
 		for _, o := range []string{"x", "y", "z", "g", "h", "o", "w", "deep", "grp", "g1", "g2", "g3", "g4", "g5", "alice", "bob", "carol", "dave", "erin"} {
 			ee.pool.add(o)
 		}
